@@ -16,7 +16,10 @@ namespace Pyoda.C13
 open Pyoda.Cache
 
 /-- Over a partition base map, every completed lookup of every thread returns the base map's interval, under any
-    schedule; no thread's node construction runs out of fuel; completed lookups are an in-order prefix of the program. -/
+    schedule; no thread's node construction runs out of fuel; completed lookups are an in-order prefix of the program.
+    GRANULARITY: the class has no lock; the atomic actions are one slot read and one slot write of `__instant_cache`
+    (CPython's GIL, trusted base).  `Pyoda.GenAgree.C13Z.gen_Cache_getZoneInterval_gil_ops` pins, against the record
+    regenerated from the source, that these two are the only operations of `get_zone_interval` on mutable state. -/
 theorem zoneCache_interleaved (cfg : ZoneHashCache.Cfg) (hi : Int)
     (hp : Partition cfg.get (cfg.minDays * NPD) hi) (hfuel : 32 * 86400000000000 < cfg.fuel)
     (progs : Nat → List Int) (h : ∀ i, ∀ t ∈ progs i, Askable cfg hi t) (sched : List Nat) (i : Nat) :
@@ -74,7 +77,11 @@ example : (List.range 2).map (fun i => ((HebrewConc.runSched YearCache.Hebrew.el
       calls (at most the call in flight is still missing), and its calls appear in `hist` in program order;
     * whenever the lock is free the dictionary and queue are exactly the sequential state after `hist`,
       hence within the size bound;
-    * at most one thread is inside the locked region. -/
+    * at most one thread is inside the locked region.
+    ASSUMPTION AND ITS TIE: the model puts every dict / deque operation of `get_or_add` between one `acquire` and one
+    `release`.  That the source does is `Pyoda.GenAgree.C13.cache_ops_atomic_in_source` (`gen_Cache_getOrAdd_atomic`,
+    `gen_Cache_count_atomic`, `gen_Cache_clear_atomic` in `PyodaProofs/GenAgreeC13.lean`), checked on every run against
+    the lock discipline records that `tools/py2lean.py` recomputes from the AST. -/
 theorem lru_locked_linearizable (f : Int → Int) (size : Nat) (progs : Nat → List Int) (sched : List Nat) :
     (∀ i, ∃ tail, LruConc.linOut f size Lru.init (LruConc.runSched f size progs sched).shared.hist i =
         ((LruConc.runSched f size progs sched).threads i).out.reverse ++ tail ∧ tail.length ≤ 1) ∧
